@@ -336,7 +336,13 @@ def cases(tier, seed):
         if any(nd[0] != "alias" and any(e[0] == "map" for e in nd[1]) for nd in c["nodes"]):
             for mt in (MAP_TYPES if (tier != "quick" or c["n"] == 1) else MAP_TYPES[:1]):
                 out.append(with_map_type(c, mt))
-    return out
+    # the targeted families overlap with the full n = 3 product of the thorough tier: one case per distinct (document, settings)
+    seen, uniq = set(), []
+    for c in out:
+        if c["key"] not in seen:
+            seen.add(c["key"])
+            uniq.append(c)
+    return uniq
 
 
 def containment_cycle(types):
